@@ -15,8 +15,10 @@ HARNESSES = [
 VARIANTS = ["repaired", "d_async", "d_reserve", "defective"]
 MODEL_NEEDS_IMPL = True
 RULE = ("one case = one whole history over <=6 sessions on a fresh component with a scheduler-controlled opdb fake: "
-        "new (bring-up with allocator answers; pool/static/no address per family, bound/approved/created flags, lease and "
-        "age classes incl. expired and zero time), ck (asynchronous checkpoint, parks), cks (synchronous), rel (terminate), "
+        "new (bring-up with allocator answers; pool/static/no address per family, bound/released-v4/approved/created flags "
+        "incl. the partially released dual-stack session (State released, IA_NA/IA_PD bound) and its converse, lease and "
+        "age classes incl. expired and zero time), ckrel / ck2 (checkpoint immediately followed by release / by another "
+        "checkpoint on one goroutine with GOMAXPROCS(1): write order must equal call order), ck (asynchronous checkpoint, parks), cks (synchronous), rel (terminate), "
         "done:<ticket> (any parked Put, any order), crash:<dataplane preserved|empty>[:failing add] (new component instance "
         "restores from the surviving store), then further ops incl. more crashes; final dump = live sessions, store, "
         "dataplane and the free set of each pool (drained). Named classes: put overtaken by delete, stale put after newer "
@@ -39,13 +41,19 @@ def route(case):
 # ------------------------------------------------------------------ generator
 def _new(rng, proto, i, kind=None):
     if proto == "ipoe":
-        fl = rng.choice(["bac", "bac", "bac", "bac", "ba", "a", "bc", "c", "ac", "bac6", "."]) if kind is None else kind
+        fl = rng.choice(["bac", "bac", "bac", "bac", "ba", "a", "bc", "c", "ac", "bac6", "bac6", ".",
+                         "rac6", "rac6", "rac"]) if kind is None else kind
     else:
         fl = rng.choice(["bc", "bc", "bc", "b", "c", "."]) if kind is None else kind
     ad = lambda: rng.choice(["a", "a", "a", "-", "-", "s%d" % rng.randint(0, 3)])
     v4, v6, pd = ad(), ad(), ad()
     if proto == "pppoe" and "c" in fl and v4 == "-":
         v4 = "a"      # a PPPoE dataplane session exists only with an IPv4 address
+    if "r" in fl:
+        # DHCPv4 lease released, DHCPv6 still bound (unified mode keeps the session): no IPv4, IA_NA and/or IA_PD
+        v4 = "-"
+        if v6 == "-" and pd == "-":
+            v6 = "a"
     lease4 = rng.choice([0, 600, 3600, 3600])
     age4 = rng.choice(["z", "10", "100", "100", "5000", "100000"])
     lease6 = rng.choice([0, 600, 3600])
@@ -62,11 +70,23 @@ def _history(rng, proto, nops, nsess):
             ops.append(_new(rng, proto, nxt))
             live.append(nxt)
             nxt += 1
-        elif r < 0.45 and live:
+        elif r < 0.40 and live:
             i = rng.choice(live)
             ops.append("ck:%d" % i)
             pend.append((tick, i))
             tick += 1
+        elif r < 0.43 and live:
+            i = rng.choice(live)
+            ops.append("ck2:%d" % i)
+            pend += [(tick, i), (tick + 1, i)]
+            tick += 2
+        elif r < 0.46 and live:
+            i = rng.choice(live)
+            ops.append("ckrel:%d" % i)
+            pend.append((tick, i))
+            live.remove(i)
+            store.discard(i)
+            tick += 2
         elif r < 0.50 and live:
             i = rng.choice(live)
             ops.append("cks:%d" % i)
@@ -126,12 +146,27 @@ def _structured(proto):
         [n(0), "ck:0", "done:0", "crash:e", "crash:p", "done:1", "done:2", "rel:0", "done:1", "crash:p"],
         # restore's own checkpoint overtaken by a delete
         [n(0), "ck:0", "done:0", "crash:p", "rel:0", "done:1", "crash:p"],
+        # write order = call order: checkpoint immediately followed by release / by another checkpoint (single P)
+        [n(0), "ckrel:0", "done:0", "crash:p"],
+        [n(0), "ck:0", "done:0", "ckrel:0", "done:1", "crash:e", n(1)],
+        [n(0), n(1), "ckrel:1", "ckrel:0", "done:2", "done:0", "crash:p"],
+        [n(0), "ck2:0", "done:1", "done:0", "crash:p"],
+        [n(0), "ck2:0", "done:0", "done:1", "crash:p"],
+        [n(0), "ck2:0", "ckrel:0", "done:1", "done:0", "done:2", "crash:p"],
+        [n(0), "ck:0", "done:0", "crash:p", "ck2:0", "done:3", "done:2", "done:1", "crash:e"],
     ]
     if proto == "ipoe":
         hs += [[n(0, fl="a"), "ck:0", "done:0", "crash:p", "ck:0", "done:1", "crash:p"],
                [n(0, fl="ba", a="a:a:-"), "ck:0", "done:0", "crash:e", n(1, a="a:a:-")],
                [n(0, fl=".", a="-:-:-"), "ck:0", "done:0", "crash:p"],
-               [n(0, fl="bac6", a="-:a:a", t="0:z:600:5000"), "ck:0", "done:0", "crash:p"]]
+               [n(0, fl="bac6", a="-:a:a", t="0:z:600:5000"), "ck:0", "done:0", "crash:p"],
+               # partially released dual-stack session: IPv4 released (State "released"), IA_NA / IA_PD still bound
+               [n(0, fl="rac6", a="-:a:a", t="3600:100:3600:10"), "ck:0", "done:0", "crash:p", n(1, a="a:a:a")],
+               [n(0, fl="rac6", a="-:a:a", t="3600:100:3600:10"), "cks:0", "crash:e", n(1, fl="bac6", a="a:a:a")],
+               [n(0, fl="rac6", a="-:a:-", t="600:5000:600:5000"), "ck:0", "done:0", "crash:p", n(1, a="-:a:-")],
+               [n(0, fl="rac6", a="-:-:a", t="0:z:3600:10"), "ck:0", "done:0", "crash:e", "rel:0", "crash:p"],
+               # the converse: DHCPv6 released, IPv4 still bound
+               [n(0, fl="bac", a="a:-:-", t="3600:100:3600:5000"), "ck:0", "done:0", "crash:e", n(1, a="a:a:a")]]
     else:
         hs += [[n(0, fl="b", a="-:a:-"), "ck:0", "done:0", "crash:p", n(1, a="-:a:-")],
                [n(0, fl=".", a="a:-:-"), "ck:0", "done:0", "crash:p", n(1)],
@@ -145,7 +180,7 @@ def gen_cases(rng, tier, budget):
         for h in _structured(proto):
             for cfg in ("4 4 1", "2 2 1"):
                 cases.append("%s %s %s" % (proto, cfg, " ".join(h)))
-    n = budget or (2400 if tier == "quick" else 12000)
+    n = budget or (2000 if tier == "quick" else 12000)
     for k in range(n):
         proto = "ipoe" if k % 2 == 0 else "pppoe"
         n4, n6, kpd = rng.choice([2, 3, 4, 6]), rng.choice([2, 3, 4]), rng.choice([1, 2])
